@@ -49,9 +49,29 @@ func (m Map) validate() error {
 				errs = append(errs, errorx.Invalid("Chord %s Extends %s not found", c.Name, x))
 			}
 		}
+		if m.extendsItself(c) {
+			errs = append(errs, errorx.Invalid("Chord %s Extends itself", c.Name))
+		}
 	}
 
 	return errors.Join(errs...)
+}
+
+// extendsItself reports whether following Extends from c leads back to a chord already visited.
+func (m Map) extendsItself(c Chord) bool {
+	seen := map[string]bool{c.Name: true}
+	for x := c.Extends; x != ""; {
+		next, ok := m.chords[x]
+		if !ok {
+			return false
+		}
+		if seen[next.Name] {
+			return true
+		}
+		seen[next.Name] = true
+		x = next.Extends
+	}
+	return false
 }
 
 func (m Map) GetChord(nameOrDisplay string) (Chord, bool) {
